@@ -72,3 +72,64 @@ package indexer
 //@   ensures[C14.save_fails_only_closed] (err == nil) == batchOpen[payload(batch)]
 //@   ensures[C14.save_error_keeps_prefix] err != nil ==> (batchLen[payload(batch)] == old(batchLen[payload(batch)]) && batchKey[payload(batch)] == old(batchKey[payload(batch)]) && batchVal[payload(batch)] == old(batchVal[payload(batch)]))
 //@   panics never
+
+//@ import cmttypes "github.com/cometbft/cometbft/types"
+//@ import abci "github.com/cometbft/cometbft/abci/types"
+//@ import sdk "github.com/cosmos/cosmos-sdk/types"
+//@ import evmtypes "github.com/EscanBE/evermint/v12/x/evm/types"
+
+// isEthTx = app/antedl/utils.IsEthereumTx: trusted summary of code outside this check's packages (the ante helpers are
+// decided with C06/C07): an Ethereum-shaped transaction carries exactly one message, a *MsgEthereumTx.
+// ethShapedBytes(b): the transaction encoded by b is Ethereum-shaped — a function of the bytes (decoding is deterministic
+// and decoded transactions are not mutated; txSrc, prelude/44_misc_client.spec, remembers the source of a decoded object)
+//@ ghost func ethShapedBytes(b bytes) bool
+//@ func isEthTx(tx sdk.Tx) bool
+//@   assumed
+//@   modifies nothing
+//@   ensures result == ethShapedBytes(txSrc[payload(tx)])
+//@   ensures result ==> (tx != nil && len(tx.GetMsgs()) == 1 && typeof(tx.GetMsgs()[0]) == type(*evmtypes.MsgEthereumTx) && unbox(tx.GetMsgs()[0], type(*evmtypes.MsgEthereumTx)) != nil)
+//@   panics never
+
+// ---------------------------------------------------------------------------------------------
+// IndexBlock (C14): everything is staged in ONE batch; the database changes only through that batch's single Write
+// (atomic by the assumed contract of cosmos-db) and is untouched on every error return.
+// ---------------------------------------------------------------------------------------------
+// ixElig(block, j): the j-th transaction of the block is indexed (gets an eth tx index). The FIRST precondition of
+// IndexBlock is a definition: it pins this otherwise uninterpreted name to the eligibility rule, written over the inputs
+// (it does not restrict the inputs: such a function exists for every block and every result list):
+//   not dropped before the ante handler, decodable, Ethereum-shaped, and its events parse (no malformed index attribute).
+// ixCountTo(block, n) = number of eligible transactions among the first n (defined by its recurrence: the two axioms are
+// the definition by recursion on n of a total function; they assume nothing about the program).
+//@ ghost func ixElig(b ref, j int) bool
+//@ ghost func ixCountTo(b ref, n int) int
+//@ axiom ix_count_zero: forall b ref, n int :: {ixCountTo(b, n)} n <= 0 ==> ixCountTo(b, n) == 0
+//@ axiom ix_count_step: forall b ref, n int :: {ixCountTo(b, n + 1)} n >= 0 ==> ixCountTo(b, n + 1) == ixCountTo(b, n) + (ixElig(b, n) ? 1 : 0)
+
+// the m-th staged record (batch entries 2m and 2m+1): hash key -> TxResult{height, tx index, eth index, failed} and
+// (height, eth index) key -> hash, mutually inverse; indices within the given bounds
+//@ ghost func ixRecordOk(keys map[int]bytes, vals map[int]bytes, m int, height int, maxTxIndex int, ethBound int) bool = txResultDecHeight(vals[2 * m]) == height && 0 <= txResultDecTxIndex(vals[2 * m]) && txResultDecTxIndex(vals[2 * m]) <= maxTxIndex && 0 <= txResultDecEthTxIndex(vals[2 * m]) && txResultDecEthTxIndex(vals[2 * m]) < ethBound && txResultDecEthTxIndex(vals[2 * m]) <= txResultDecTxIndex(vals[2 * m]) && keys[2 * m + 1] == txIndexKeyOf(height, txResultDecEthTxIndex(vals[2 * m])) && keys[2 * m] == txHashKeyOf(bytesHash(vals[2 * m + 1]))
+
+//@ func (kv *KVIndexer) IndexBlock(block *cmttypes.Block, txResults []*abci.ExecTxResult) (err error)
+//@   requires kv != nil && block != nil && kv.db != nil && kv.mu != nil && kv.logger != nil && kv.clientCtx.TxConfig != nil && kv.clientCtx.Codec != nil
+//@   requires forall j int :: {ixElig(block, j)} (0 <= j && j < len(txResults)) ==> ixElig(block, j) == (!(txResults[j].Code != 0 && !(exists k int :: {txResults[j].Events[k].Type} 0 <= k && k < len(txResults[j].Events) && txResults[j].Events[k].Type == evmtypes.EventTypeEthereumTx)) && txDecodes(kv.clientCtx.TxConfig.TxDecoder(), bytes(block.Data.Txs[j])) && ethShapedBytes(bytes(block.Data.Txs[j])) && !(exists k int, a int :: {attrBadIndex(txResults[j].Events[k].Type, txResults[j].Events[k].Attributes[a].Key, txResults[j].Events[k].Attributes[a].Value)} 0 <= k && k < len(txResults[j].Events) && 0 <= a && a < len(txResults[j].Events[k].Attributes) && attrBadIndex(txResults[j].Events[k].Type, txResults[j].Events[k].Attributes[a].Key, txResults[j].Events[k].Attributes[a].Value)))
+//@   requires len(txResults) == len(block.Data.Txs) && len(txResults) < pow2(31)
+//@   requires forall j int :: (0 <= j && j < len(txResults)) ==> txResults[j] != nil
+//@   modifies dbHas[payload(kv.db)], dbVal[payload(kv.db)], kv.lastRequestIndexedBlock, batchOpen, batchLen, batchKey, batchVal, txSrc
+//@   ensures[C14.error_writes_nothing] err != nil ==> (dbHas[payload(kv.db)] == old(dbHas[payload(kv.db)]) && dbVal[payload(kv.db)] == old(dbVal[payload(kv.db)]) && kv.lastRequestIndexedBlock == old(kv.lastRequestIndexedBlock))
+//@   ensures[C14.last_requested] err == nil ==> kv.lastRequestIndexedBlock == max(old(kv.lastRequestIndexedBlock), block.Header.Height)
+//@   ensures[C14.single_batch] err == nil ==> (exists b ref :: fresh(b) && dbHas[payload(kv.db)] == batchApplyHas(old(dbHas[payload(kv.db)]), batchKey[b], batchLen[b]) && dbVal[payload(kv.db)] == batchApplyVal(old(dbVal[payload(kv.db)]), batchKey[b], batchVal[b], batchLen[b]))
+//@   ensures[C14.records] err == nil ==> (exists b ref :: fresh(b) && dbVal[payload(kv.db)] == batchApplyVal(old(dbVal[payload(kv.db)]), batchKey[b], batchVal[b], batchLen[b]) && batchLen[b] % 2 == 0 && batchLen[b] <= 2 * len(block.Data.Txs) && (forall m int :: (0 <= m && 2 * m < batchLen[b]) ==> (ixRecordOk(batchKey[b], batchVal[b], m, block.Header.Height, len(block.Data.Txs) - 1, len(block.Data.Txs)) && (txResults[txResultDecTxIndex(batchVal[b][2 * m])].Code != 0 ==> txResultDecFailed(batchVal[b][2 * m])))) && (forall m1 int, m2 int :: (0 <= m1 && m1 < m2 && 2 * m2 < batchLen[b]) ==> (txResultDecEthTxIndex(batchVal[b][2 * m1]) < txResultDecEthTxIndex(batchVal[b][2 * m2]) && txResultDecTxIndex(batchVal[b][2 * m1]) < txResultDecTxIndex(batchVal[b][2 * m2]))))
+//@   ensures[C14.eth_index_is_count] err == nil ==> (exists b ref :: fresh(b) && dbVal[payload(kv.db)] == batchApplyVal(old(dbVal[payload(kv.db)]), batchKey[b], batchVal[b], batchLen[b]) && (forall m int :: (0 <= m && 2 * m < batchLen[b]) ==> (ixElig(block, txResultDecTxIndex(batchVal[b][2 * m])) && txResultDecEthTxIndex(batchVal[b][2 * m]) == ixCountTo(block, txResultDecTxIndex(batchVal[b][2 * m])))))
+//@   ensures[C14.other_batches_untouched] forall r ref :: !fresh(r) ==> (batchOpen[r] == old(batchOpen[r]) && batchLen[r] == old(batchLen[r]) && batchKey[r] == old(batchKey[r]) && batchVal[r] == old(batchVal[r]))
+//@   panics any
+//@ loop 1
+//@   invariant -1 <= rangeindex && rangeindex < len(block.Data.Txs) && 0 <= ethTxIndex && ethTxIndex <= rangeindex + 1
+//@   invariant batch != nil && fresh(payload(batch)) && batchOpen[payload(batch)] && batchDbOf(payload(batch)) == payload(kv.db)
+//@   invariant dbHas[payload(kv.db)] == old(dbHas[payload(kv.db)]) && dbVal[payload(kv.db)] == old(dbVal[payload(kv.db)])
+//@   invariant forall r ref :: !fresh(r) ==> (batchOpen[r] == old(batchOpen[r]) && batchLen[r] == old(batchLen[r]) && batchKey[r] == old(batchKey[r]) && batchVal[r] == old(batchVal[r]))
+//@   invariant batchLen[payload(batch)] % 2 == 0 && 0 <= batchLen[payload(batch)] && batchLen[payload(batch)] <= 2 * ethTxIndex
+//@   invariant forall m int :: (0 <= m && 2 * m < batchLen[payload(batch)]) ==> (ixRecordOk(batchKey[payload(batch)], batchVal[payload(batch)], m, block.Header.Height, rangeindex, ethTxIndex) && (txResults[txResultDecTxIndex(batchVal[payload(batch)][2 * m])].Code != 0 ==> txResultDecFailed(batchVal[payload(batch)][2 * m])))
+//@   invariant forall m1 int, m2 int :: (0 <= m1 && m1 < m2 && 2 * m2 < batchLen[payload(batch)]) ==> (txResultDecEthTxIndex(batchVal[payload(batch)][2 * m1]) < txResultDecEthTxIndex(batchVal[payload(batch)][2 * m2]) && txResultDecTxIndex(batchVal[payload(batch)][2 * m1]) < txResultDecTxIndex(batchVal[payload(batch)][2 * m2]))
+//@   invariant ethTxIndex == ixCountTo(block, rangeindex + 1)
+//@   invariant forall m int :: (0 <= m && 2 * m < batchLen[payload(batch)]) ==> (ixElig(block, txResultDecTxIndex(batchVal[payload(batch)][2 * m])) && txResultDecEthTxIndex(batchVal[payload(batch)][2 * m]) == ixCountTo(block, txResultDecTxIndex(batchVal[payload(batch)][2 * m])))
+//@   invariant forall r ref :: !fresh(r) ==> txSrc[r] == old(txSrc[r])
